@@ -74,8 +74,23 @@ def run_impl(case):
     pw = pointwise_cm(labels, scores, thr, score_class=case["sc"], equal_class=case["ec"])
     pw_shape = list(pw.shape)
     pw_sum = [[int(v) for v in m.reshape(-1)] for m in pw.sum(axis=0)]
+    # memory layout must not matter: transposed views / Fortran order for thresholds, labels and scores
+    layout_ok = True
+    if len(thr) >= 2 and len(scores) >= 2:
+        reps = np.tile(thr, 6)[: 6].reshape(2, 3)
+        for T in (np.asfortranarray(reps), reps.T, np.ascontiguousarray(reps.T).T):
+            want = s.cm(T).matrix - np.array([[case["ep"], 0], [0, case["en"]]])
+            got = pointwise_cm(labels, scores, T, score_class=case["sc"], equal_class=case["ec"]).sum(axis=0)
+            layout_ok = layout_ok and got.shape == want.shape and bool(np.array_equal(got, want))
+        n2 = (len(scores) // 2) * 2
+        if n2 >= 4:
+            l2, s2 = labels[:n2].reshape(2, -1), scores[:n2].reshape(2, -1)
+            a = pointwise_cm(np.asfortranarray(l2), s2, thr, score_class=case["sc"], equal_class=case["ec"])
+            b = pointwise_cm(l2, np.asfortranarray(s2), thr, score_class=case["sc"], equal_class=case["ec"])
+            c = pointwise_cm(l2, s2, thr, score_class=case["sc"], equal_class=case["ec"])
+            layout_ok = layout_ok and bool(np.array_equal(a, c)) and bool(np.array_equal(b, c))
     excl = bool(np.all(pw.sum(axis=(-1, -2)) == 1)) if pw.size else True
-    return {"cm": mats, "rates": rates, "pw_sum": pw_sum, "pw_shape": pw_shape, "pw_exclusive": excl, "cm_is_sorted": raw}
+    return {"cm": mats, "rates": rates, "pw_sum": pw_sum, "pw_shape": pw_shape, "pw_exclusive": excl, "cm_is_sorted": raw, "pw_layout_ok": layout_ok}
 
 
 def _scores_term(case):
@@ -139,6 +154,8 @@ def oracle(case, res):
         fails.append(("C01/margins", f"TP+FN / FP+TN depend on the threshold: {sorted(margins)}"))
     if not r["pw_exclusive"]:
         fails.append(("C01/pointwise", "some sample is not in exactly one cell of pointwise_cm"))
+    if not r.get("pw_layout_ok", True):
+        fails.append(("C01/pointwise-layout", "pointwise_cm depends on the memory layout (Fortran order / transposed view) of its threshold, label or score arrays"))
     if r["pw_shape"] != [len(pos) + len(neg), len(case["thr"]), 2, 2]:
         fails.append(("C01/pointwise", f"pointwise_cm shape {r['pw_shape']}"))
     return fails
